@@ -176,10 +176,14 @@ class Runtime:
 
         try:
             handler = self.handlers[type(request)]
-        except KeyError as e:
-            raise TypeError(
-                f"No handler for request type {type(request).__qualname__}"
-            ) from e
+        except KeyError:
+            # defaults registered after this runtime was created
+            try:
+                handler = _DEFAULT_HANDLERS[type(request)]
+            except KeyError as e:
+                raise TypeError(
+                    f"No handler for request type {type(request).__qualname__}"
+                ) from e
 
         return handler(request)
 
